@@ -30,6 +30,9 @@ def generate(tier, rng):
             n += 1
             if n % 3 == 0 or len(op) < 400:
                 yield 'mice.dec.copy ' + op[len('mice.dec '):]
+            # and with further Reads after the decoder has reported its end or an error (nothing unauthenticated, nothing twice)
+            if n % 4 == 0 or len(op) < 300:
+                yield f'mice.dec.more {"copy" if n % 2 else "read"} ' + op[len('mice.dec '):] + ' 3'
 
 
 def generate0(tier, rng):
